@@ -175,7 +175,19 @@ func (g *gen) badModule(name, kind string) *ModSpec {
 		case x < 4:
 			// an extra function import: wrong signature, or a name that is not a function
 			im := ImportSpec{Mod: in.name, Name: "L0", Ext: Ext{Kind: wenc.ExtFunc, Func: ft(tI32, tI64)}}
-			switch r.Intn(4) {
+			switch r.Intn(6) {
+			case 4, 5:
+				// a function that `in` re-exports from its own imports, declared with the type of another such function
+				var re []string
+				for _, n := range sortedExports(in, wenc.ExtFunc) {
+					if in.exports[n].fn.inst != in {
+						re = append(re, n)
+					}
+				}
+				if len(re) >= 2 {
+					a, b := re[r.Intn(len(re))], re[r.Intn(len(re))]
+					im.Name, im.Ext.Func = a, in.exports[b].fn.typ
+				}
 			case 0:
 				im.Ext.Func = ft(nil, tI32)
 			case 1:
